@@ -106,6 +106,38 @@ def own_pixels_only(P: Program, R: Report, rule: str) -> None:
         R.undecided(rule, "RegionProperties subclasses", "", "per-region measurements look at their own pixels only", "no use of the frame's label image found")
 
 
+def kernel_sees_the_frame(P: Program, R: Report, rule: str) -> None:
+    """skimage's regionprops reports centroids, bounding boxes and slices in the coordinates of the array it is given.
+    The measurement wrappers hand it the frame they received, unchanged: a cropped (or otherwise sub-selected) array moves
+    every coordinate by the crop origin, and skimage's `offset` argument is in scaled units, so a pixel origin is only
+    right for unit spacing."""
+    from .provenance import classify
+
+    n = 0
+    for f in P.functions.values():
+        if ".annotators." not in f.qname:
+            continue
+        for c in ast.walk(f.node):
+            if not (isinstance(c, ast.Call) and call_name(c) == "regionprops" and c.args):
+                continue
+            n += 1
+            label = f"{f.short}: regionprops measures the frame it was handed, in the frame's own coordinates"
+            v, why = classify(P, f, c.args[0], c.lineno)
+            if v == "bad":
+                R.fail(rule, f, c, label, f"{why}: centroids and slices are relative to the sub-array; a pixel `offset` is added AFTER scaling, so positions are "
+                       "wrong for every non-unit spacing (bulk and incremental alike)")
+            elif v == "ident":
+                off = next((k for k in c.keywords if k.arg == "offset"), None)
+                if off is not None and not (isinstance(off.value, ast.Constant) and off.value.value is None):
+                    R.undecided(rule, f, c, label, f"an explicit offset `{norm(off.value)[:40]}` is passed")
+                else:
+                    R.ok(rule, f, c, label, f"`{norm(c.args[0])}` is the parameter `{why}`", via="provenance")
+            else:
+                R.undecided(rule, f, c, label, why)
+    if n == 0:
+        R.undecided(rule, "annotators", "", "regionprops measures the frame it was handed", "no regionprops call found in the annotators package")
+
+
 def run(P: Program, R: Report, tier: str) -> None:
     R.explanation = (
         "Trigger matrix (effects of primitives x handlers of the regionprops annotator), ordering of "
@@ -201,6 +233,7 @@ def run(P: Program, R: Report, tier: str) -> None:
     _, res_u = A.run(fu)
     release_before_claim(R, fu, res_u, "R08.6")
     own_pixels_only(P, R, "R08.7")
+    kernel_sees_the_frame(P, R, "R08.11")
     # ---- R08.8 a query of the data model never answers from a memo that some writer forgets to drop
     from .memo import no_stale_memo
 
@@ -209,3 +242,7 @@ def run(P: Program, R: Report, tier: str) -> None:
     from .annot import keys_threaded
 
     keys_threaded(P, R, "R08.9", only=('position',))
+    # ---- R08.10 (= R10.6) enabling with recomputation computes every requested key, also one that was registered before
+    from .c10 import enable_recomputes_requested
+
+    enable_recomputes_requested(P, R, "R08.10")
